@@ -75,6 +75,20 @@ class EvalInterp(ResultInterp):
             return Sym("pool.starmap")
         return super().get_attr(base, attr, node)
 
+    def call_func(self, f, args, kwargs, node, self_obj=None):
+        # a parallel map helper proved order preserving (R15.5): read as starmap over (shared..., item...)
+        from .c15 import verified_map_helpers
+
+        spec = verified_map_helpers(self.prog).get(f.qual) if self_obj is None else None
+        if spec is not None:
+            _, fp, sp, ip, wp = spec
+            b = dict(zip([p.name for p in f.call_params], args))
+            b.update(kwargs)
+            fn, items, shared = b.get(fp), b.get(ip), (b.get(sp) if sp else ())
+            if isinstance(items, list) and isinstance(shared, (tuple, list)):
+                return self.external_call("pool.starmap", [fn, [tuple(shared) + tuple(t) for t in items]], {}, node)
+        return super().call_func(f, args, kwargs, node, self_obj=self_obj)
+
 
 def check_evaluate(ctx: Ctx):
     prog = ctx.prog
